@@ -464,7 +464,12 @@ def child_handler(state, cmd):
         if kind == "load":
             objs[op["id"]] = core.load_model(MODELS[op["model"]], dtype=op["dtype"], platform="dll")
         elif kind == "make_kernel":
-            objs[op["id"]] = (objs[op["m"]].make_kernel(_q(op["q"])), _q(op["q"]))
+            qv = _q(op["q"])
+            before = [_snap(a) for a in qv]
+            objs[op["id"]] = (objs[op["m"]].make_kernel(qv), qv)
+            if [_snap(a) for a in qv] != before:
+                return {"state_op": True, "raised": None,
+                        "args_changed": "make_kernel modified the caller's q arrays"}
         elif kind == "call":
             kernel, qv = objs[op["k"]]
             pars = _pars_obj(state, op["model"], op["pars"])
@@ -476,7 +481,11 @@ def child_handler(state, cmd):
             objs[op["m"]].release()
         elif kind == "direct":
             data = _make_data(op["data"])
+            before = _snap(data)
             objs[op["id"]] = (direct_model.DirectModel(data, objs[op["m"]], cutoff=op["cutoff"]), data)
+            if _snap(data) != before:
+                return {"state_op": True, "raised": None,
+                        "args_changed": "DirectModel() modified the caller's data object"}
         elif kind == "direct_call":
             calc, data = objs[op["d"]]
             pars = _pars_obj(state, op["model"], op["pars"])
@@ -657,6 +666,10 @@ def run_history(cfg, keep_events=False):
                 session = None
                 break
             if payload.get("state_op"):
+                if payload.get("args_changed"):
+                    violations.append({"inv": "H2", "op": i, "kind": kind, "model": op.get("model"),
+                                       "detail": payload["args_changed"]})
+                    break
                 events.append([i, kind, payload.get("raised")])
                 if payload.get("raised"):
                     probe("state_op_raised")
